@@ -357,9 +357,9 @@ def distinguishing_cases(rng, variant="lexAllPairs"):
 
     with open(os.path.join(VERIF, "spec", "distinguishing.json")) as f:
         d = json.load(f)
-    sig = SIG[:3]
     cases = []
     for e in d.get(variant, []):
+        sig = SIG[: {4: 2, 8: 3, 16: 4, 32: 5}[e["nw"]]]
         base = []
         for i in e["b"]:
             vec = M.cond_from_index(i, e["nw"])
@@ -377,6 +377,37 @@ def distinguishing_cases(rng, variant="lexAllPairs"):
                 qs.append(c)
         cases.append({"sig": sig, "base": base, "qs": qs, "via": "api"})
     return cases
+
+
+def gen_case_defaults(rng, nq=10):
+    """'Defaults and exceptions' bases over 4 atoms with queries whose antecedent joins the falsifying worlds of two
+    exceptions: the shape on which a layer has several tied falsification sets (found with MC_AlgoRefines/wAnyTie)."""
+    sig = SIG[:4]
+    lit = lambda: (M.V(rng.choice(sig)) if rng.random() < 0.5 else M.Not(M.V(rng.choice(sig))))
+    for _ in range(200):
+        defaults = [(lit(), M.TOP) for _ in range(rng.choice([2, 3, 3]))]
+        exc = [(lit(), lit()) for _ in range(rng.choice([2, 2, 3]))]
+        conds = defaults + exc
+        bv = [M.cond_vec(B, A, sig) for B, A in conds]
+        fin, inf = pysem.part(bv)
+        if not inf and len(fin) >= 2:
+            break
+    else:
+        return None
+    qs, seen = [], set()
+    for _ in range(nq * 3):
+        e1, e2 = rng.sample(exc, 2)
+        A = M.Or(M.And(e1[1], M.Not(e1[0])), M.And(e2[1], M.Not(e2[0])))
+        dd = rng.choice(defaults)[0]
+        x = rng.choice([e1, e2])[0]
+        B = rng.choice([M.Or(M.And(dd, x), M.And(M.Not(dd), M.Not(x))), M.random_formula(sig, 2, rng, 0.0), M.Or(M.And(dd, M.Not(x)), M.And(M.Not(dd), x)), dd, M.Not(dd)])
+        t = M.render_cond(B, A)
+        if t not in seen:
+            seen.add(t)
+            qs.append({"vec": M.cond_vec(B, A, sig), "B": B, "A": A})
+        if len(qs) >= nq:
+            break
+    return {"sig": sig, "base": [{"vec": v, "B": B, "A": A} for v, (B, A) in zip(bv, conds)], "qs": qs, "via": "api"}
 
 
 def search_distinguishing(chk: Check, rng, n_cases, nq=30):
